@@ -71,7 +71,7 @@ def run(ctx):
         if r_['what'] == 'attack':
             obs = {'called': out_['called'], 'fault': out_['fault'], 'client': out_['client'], 'escape': out_['escape'], 'canary': out_['canary'],
                    'expanded': out_['expanded'], 'file_opened': n in opened, 'net_contact': (n in net) or out_['net_hits'] > 0,
-                   'seconds10': out_['seconds10'], 'mb': out_['mb']}
+                   'seconds10': out_['seconds10'], 'mb': out_['mb'], 'nodes': out_.get('nodes', 0), 'reqnodes': out_.get('reqnodes', 1)}
             recs.append({'what': 'attack', 'a': r_['a'], 'obs': obs, 'info': dict(out_, request=r_['request'], opened=opened.get(n), net=net.get(n))})
         else:
             k = r_['s']['serve']['kind']
@@ -98,7 +98,8 @@ def run(ctx):
         nbad += 1
         if r_['what'] == 'attack':
             a = r_['a']
-            ctx.violation('%s|%s|pos=%s|prot=%s|transport=%s|framing=%s' % ('+'.join(sorted(cl)), a['kind'], a['pos'], a['prot'], a['transport'], a['framing']),
+            ctx.violation('%s|%s|pos=%s|prot=%s|transport=%s|framing=%s%s' % ('+'.join(sorted(cl)), a['kind'], a['pos'], a['prot'], a['transport'], a['framing'],
+                                                                              '' if a.get('validator', 'none') == 'none' else '|validator=' + a['validator']),
                           '%s: attack %s: %s' % (sorted(cl), a, json.dumps(r_['info'])[:600]), {'attack': a, 'observation': r_['obs'], 'info': r_['info']})
         else:
             s = r_['s']
